@@ -8,7 +8,7 @@
   `Toi.Op.addEarlyErr / add k false` - are related to this one in `Props/AdmissionLink.lean`.
 
   Integers are `Nat` within the range of their Rust type (see `Oti.wf`, `Obj.wf`); `usize` = `u64`.
-  Panics (`todo!()`, checked arithmetic in the dev profile) are `.error` of `Rs`.
+  Panics (`todo!()`) are `.error` of `Rs`.
   No imports outside FluteModel (linked into the `toi` driver).
 -/
 import FluteModel.Partition
@@ -81,9 +81,11 @@ inductive Refuse where
   | xmlMetadata
   | foreignToi
   -- `FileDesc::new`; a TOI has been allocated before if the object had none (it is released again)
+  | notImplemented          -- Reed Solomon GF(2^m): no encoder
   | tooLong
   | rsNoParity
-  | rsBlockOver256
+  | rsFtiFields             -- FEC 5: B + parity > 255, FEC 129: B + parity > 65535 (FTI field widths)
+  | rsBlockOver255
   | blockOverKmax
   | noSchemeSpecific
   | tooManyBlocks
@@ -132,19 +134,20 @@ def lengthCap : Fec → Nat
   | .raptorq => 0xFFFFFFFFFF
   | _ => 0xFFFFFFFFFFFF
 
+/-- `usize::saturating_mul` (`usize` = `u64`) -/
+def satMul64 (a b : Nat) : Nat := if a * b < 2 ^ 64 then a * b else 2 ^ 64 - 1
+
 /-- `max_transfer_length`:
-    `let max_sbn = ..; let block_size = esl as usize * maxSbl as usize; let size = block_size * max_sbn;
-     if size > transfer_length { transfer_length } else { size }` -/
+    `let max_sbn = ..; let block_size = (esl as usize).saturating_mul(maxSbl as usize);
+     let size = block_size.saturating_mul(max_sbn); if size > transfer_length { transfer_length } else { size }`
+    (saturating since /repo "fix: Oti::max_transfer_length saturates": the products exceeded `usize` for large
+    `maximum_source_block_length`, a public `u32` - dev: panic inside `add_object`, release: wrapped limit) -/
 def maxTransferLength (o : Oti) : Rs Nat :=
   match maxSourceBlocksNumber o.fec with
   | .error w => .error w
   | .ok maxSbn =>
-    match u64mul o.esl o.maxSbl with
-    | .error w => .error w
-    | .ok blockSize =>
-      match u64mul blockSize maxSbn with
-      | .error w => .error w
-      | .ok size => .ok (if size > lengthCap o.fec then lengthCap o.fec else size)
+    let size := satMul64 (satMul64 o.esl o.maxSbl) maxSbn
+    .ok (if size > lengthCap o.fec then lengthCap o.fec else size)
 
 /-! ### `FileDesc::new` (filedesc.rs) -/
 
@@ -161,30 +164,28 @@ def setZ (o : Oti) (nb : Nat) : Oti :=
   | .raptor, some (.raptor _ n al) => { o with scheme := some (.raptor (max nb 1) n al) }
   | _, _ => o
 
-/-- `FileDesc::new(priority, object, default_oti, ..)`: the checks in source order.
-    Outer `Rs`: panic; inner `Except`: `Err(FluteError)` / the OTI of the `FileDesc`. -/
-def fileDescNew (dflt : Oti) (override : Option Oti) (transferLength : Nat) : Rs (Except Refuse Oti) :=
-  -- let mut oti = match &object.config.oti { Some(res) => res.clone(), None => default_oti.clone() };
-  let oti := match override with | some o => o | none => dflt
-  -- let max_transfer_length = oti.max_transfer_length();
-  match maxTransferLength oti with
-  | .error w => .error w
-  | .ok mtl =>
-  -- if object.transfer_length as usize > max_transfer_length { return Err(..) }
-  if transferLength > mtl then .ok (.error .tooLong) else
+/-- the Reed-Solomon GF(2^8) checks of `FileDesc::new` (FEC Encoding ID 5 and 129): `some r` = `Err` -/
+def rsChecks (oti : Oti) (transferLength : Nat) : Rs (Option Refuse) :=
+  if oti.fec = .rs28 ∨ oti.fec = .rs28us then
+    -- FEC 5: `B as u64 + parity as u64 > 255` (8-bit FTI fields, since /repo "fix: add_object refuses Reed Solomon
+    -- GF(2^8) parameters that do not fit the FEC OTI")
+    if oti.fec = .rs28 ∧ oti.maxSbl + oti.parity > 255 then .ok (some .rsFtiFields) else
+    -- FEC 129: `B as u64 + parity as u64 > 0xFFFF` (16-bit FTI fields)
+    if oti.fec = .rs28us ∧ oti.maxSbl + oti.parity > 65535 then .ok (some .rsFtiFields) else
+    match Partition.blockPartitioning oti.maxSbl transferLength oti.esl with
+    | .error w => .error w
+    | .ok q =>
+      -- `a_large + parity as u64 > 255` (n ≤ 2^m - 1; was 256): a_large ≤ T ≤ L ≤ 2^48 after the length check and
+      -- parity < 2^32, the u64 addition cannot overflow
+      .ok (if q.1 + oti.parity > 255 then some .rsBlockOver255 else none)
+  else .ok none
+
+/-- `FileDesc::new` after the transfer-length check, in source order -/
+def fileDescTail (oti : Oti) (transferLength : Nat) : Rs (Except Refuse Oti) :=
   -- if (RS28 || RS28US) && oti.max_number_of_parity_symbols == 0 { return Err(..) }
   if (oti.fec = .rs28 ∨ oti.fec = .rs28us) ∧ oti.parity = 0 then .ok (.error .rsNoParity) else
-  -- if RS28 || RS28US { let (a_large, ..) = block_partitioning(..); if a_large + parity > 256 { Err } }
-  let rsCheck : Rs (Option Refuse) :=
-    if oti.fec = .rs28 ∨ oti.fec = .rs28us then
-      match Partition.blockPartitioning oti.maxSbl transferLength oti.esl with
-      | .error w => .error w
-      | .ok q =>
-        -- `a_large + parity as u64`: a_large ≤ T ≤ L ≤ 2^48 after the check above and parity < 2^32,
-        -- the u64 addition cannot overflow
-        .ok (if q.1 + oti.parity > 256 then some .rsBlockOver256 else none)
-    else .ok none
-  match rsCheck with
+  -- if RS28 || RS28US { field check; let (a_large, ..) = block_partitioning(..); if a_large + parity > 255 { Err } }
+  match rsChecks oti transferLength with
   | .error w => .error w
   | .ok (some r) => .ok (.error r)
   | .ok none =>
@@ -204,6 +205,21 @@ def fileDescNew (dflt : Oti) (override : Option Oti) (transferLength : Nat) : Rs
       -- scheme.source_blocks_length = nb_blocks.max(1)
       .ok (.ok (setZ oti nbBlocks))
   else .ok (.ok oti)
+
+/-- `FileDesc::new(priority, object, default_oti, ..)`: the checks in source order.
+    Outer `Rs`: panic; inner `Except`: `Err(FluteError)` / the OTI of the `FileDesc`. -/
+def fileDescNew (dflt : Oti) (override : Option Oti) (transferLength : Nat) : Rs (Except Refuse Oti) :=
+  -- let mut oti = match &object.config.oti { Some(res) => res.clone(), None => default_oti.clone() };
+  let oti := match override with | some o => o | none => dflt
+  -- if oti.fec_encoding_id == ReedSolomonGF2M { return Err("FEC Reed Solomon GF(2^m) is not implemented") }
+  if oti.fec = .rs2m then .ok (.error .notImplemented) else
+  -- let max_transfer_length = oti.max_transfer_length();
+  match maxTransferLength oti with
+  | .error w => .error w
+  | .ok mtl =>
+  -- if object.transfer_length as usize > max_transfer_length { return Err(..) }
+  if transferLength > mtl then .ok (.error .tooLong) else
+  fileDescTail oti transferLength
 
 /-! ### `Sender::add_object` / `Fdt::add_object` -/
 
